@@ -303,15 +303,50 @@ def executedGrpcSteps : List GrpcStep → Nat
     | .invoked _ .ok => 1 + executedGrpcSteps rest
     | _ => 1
 
-/-! ## ammo ids: `ProviderBase.NextID` = `idCounter.Add(1)` -/
+/-! ## ammo ids: `ProviderBase.NextID` = `idCounter.Add(1)` on an `atomic.Uint64` -/
+
+/-- 2^64: `atomic.Uint64.Add` wraps around -/
+def idModulus : Nat := 18446744073709551616
 
 /-- one atomic fetch-add: new counter value and the id handed out -/
-def nextID (c : Nat) : Nat × Nat := (c + 1, c + 1)
+def nextID (c : Nat) : Nat × Nat := ((c + 1) % idModulus, (c + 1) % idModulus)
 
 /-- A run of the shared counter under a schedule: the i-th element names the instance whose `Acquire`
 performs the next atomic `Add(1)`.  Returns who got which id. Any number of instances, any order. -/
 def runIds {ι : Type} : Nat → List ι → List (ι × Nat)
   | _, [] => []
   | c, i :: rest => (i, (nextID c).2) :: runIds (nextID c).1 rest
+
+/-! ## a whole pool run of a plain http gun: acquire (id) then shoot -/
+
+/-- what happens to one acquired ammo: its tag and path, and how the exchange turns out -/
+structure ShotPlan where
+  ammoTag : String
+  path : String
+  outcome : HttpOutcome
+  invalid : Bool := false
+  deriving Repr, Inhabited
+
+/-- `Provider.Acquire`: `NewGunAmmo(req, ammo.Tag(), p.NextID())`; `GunAmmo.Request`: `sample.SetID(g.id)` -/
+def ShotPlan.toShot (p : ShotPlan) (id : Nat) : HttpShot :=
+  { ammoTag := p.ammoTag, id := id, path := p.path, outcome := p.outcome, invalid := p.invalid }
+
+/-- The samples of one pool run. The list is ordered by ACQUISITION (the order of the atomic `Add`s, whoever the
+acquiring instance `ι` is); the order in which the samples reach the aggregator is some permutation of it. -/
+def runPool {ι : Type} (cfg : AutoTagCfg) : Nat → List (ι × ShotPlan) → List Sample
+  | _, [] => []
+  | c, (_, p) :: rest => (shootHttp cfg (p.toShot (nextID c).2)).reports ++ runPool cfg (nextID c).1 rest
+
+/-! ## closed forms of the scenario loops (one sample per step) -/
+
+/-- the one sample a (non-panicking) http scenario step reports -/
+def stepSample (scn : String) (s : Step) : Sample :=
+  match s.outcome with
+  | .received st .ok => okSample scn s.name st
+  | _ => errSample scn s.name
+
+/-- the one sample a gRPC scenario step reports -/
+def grpcStepSample (scn : String) (s : GrpcStep) : Sample :=
+  { tags := stepTag scn s.tag, id := 0, proto := grpcStepProto s.outcome, net := 0 }
 
 end Pandora.Model.C10
